@@ -27,10 +27,11 @@ Tolerance rule (documented in the evidence as `compare: "tol"`):
     kappa_eff <= 100 and for steps k <= 5 when 100 < kappa_eff <= 1e4 (floating-point CG loses
     orthogonality: the measured deviation from the exact-arithmetic optimum grows ~30x per step at
     kappa_eff >= 1e3 and reaches 1e-3 at step 7-9 on the UNCHANGED code; the exact statement for all
-    k is the Lean theorem C12_optimal).
+    k is the Lean theorem C12_optimal_any, with C12_optimal_mask / C12_optimal_single for k' = k).
 
 Exact reference (round 2).  In exact arithmetic the model's iterate IS the Krylov-optimal iterate
-(C12_optimal_inputs / C12_is_textbook_cg): the Lean driver therefore also runs textbook CG (`cgExact`, the
+(C12_optimal_mask / C12_optimal_single: `xOut = (cgSeq ... k).x`; C12_optimal_any for a column frozen by the
+has_converged mask): the Lean driver therefore also runs textbook CG (`cgExact`, the
 recurrence `cgSeq` of the theorems) over Q[i] on the bit-exact inputs (doubles are rationals) and returns
 the exact iterates x_k rounded to doubles.  The REAL float iterate (and the float run of the model) is
 compared with it in the A-norm, relative to max(|x* - x0|_A, |x*|_A), against the bound
@@ -560,6 +561,10 @@ class Checker:
                 if np.any(rk["X"][:, j] != 0):
                     bad.append({"clause": "zero", "max_iters": k, "column": j})
         # "stops as soon as, not before" against the TRUE residual of the iterates (slack for rounding).
+        # Lean: C12_stop_true_residual (exact arithmetic, any A, P, batch, tol; no guard / mask hypothesis): on exit
+        # before the cap every non-zero column has |b - A x| <= tol * |b - A x0| + tol * |b| (= tol_abs below), and
+        # before each step some column was strictly above; the link recurrence residual = true residual is
+        # C12_residual_true_any (hypothesis b_j != 0 only).
         # A zero column with x0 != 0 has no meaningful relative tolerance (|b| = 0): the code iterates on
         # (0, x0) without normalisation and returns 0; such cases are left out of this clause.
         degenerate = any(mult[j] == 0 and np.any(X0[:, j] != 0) for j in range(m))
@@ -988,12 +993,9 @@ def run(ctx):
         common.violation(ctx, {"broken": f"Lean gate of {MODULE}", "detail": gate_err[-3000:]}, no_input=True)
     tiny = tiny_rhs_probe()
     if tiny["clamp_defect_present (|b| < 1e-40)"]:
-        if "tiny-rhs-norm" in common.known_clauses(ctx.prop):
-            common.known_finding(ctx, "tiny-rhs-norm", "0 < |b| < 1e-40: system divided by the clamped 1e-40, result multiplied by |b|")
-        else:
-            A2 = np.diag([2.0, 3.0])
-            common.violation(ctx, {"case": None, "violated": [{"clause": "scale / optimal", "detail": "cg(diag(2,3), 1e-45*[1,1]) / 1e-45 != [1/2, 1/3]", "probe": tiny}],
-                                   "how": "fixed probe: right-hand side of norm below 1e-40 (the 1e-40 clamp of the normalisation is back)"})
+        # regression probe of the defect repaired by /repo e0cb27f; no clause is recorded for it: a return is a violation
+        common.violation(ctx, {"case": None, "violated": [{"clause": "scale / optimal", "detail": "cg(diag(2,3), 1e-45*[1,1]) / 1e-45 != [1/2, 1/3]", "probe": tiny}],
+                               "how": "fixed probe: right-hand side of norm below 1e-40 (the 1e-40 clamp of the normalisation is back)"})
     tscale = tiny_scale_probe()
     if tscale["defect_present"] or not tscale["control_ok (scale 1e-30)"]:
         common.violation(ctx, {"case": None, "violated": [{"clause": "optimal", "probe": tscale,
@@ -1040,8 +1042,9 @@ def run(ctx):
     common.write_evidence(ctx, gate, cov, assumptions=[
         "theorems are about exact real/complex arithmetic (RCLike instance of the model); the IEEE run of the same model text is what the correspondence compares",
         "C12_optimal_mask holds for non-zero columns while the has_converged mask of take_cg_step (relative residual < 1e-40) has not acted; C12_scale and C12_zero are unconditional",
+        "stops-as-soon-as / stops-not-before are checked on the TRUE residual |b - A x| of the real iterates against tol * |b - A x0| + tol * |b|: this is the Lean theorem C12_stop_true_residual (exact arithmetic; any A, P, batch, x0, tol; no guard, mask or definiteness hypothesis), obtained from C12_stop through C12_residual_true_any (for every column with b_j != 0 and every step i the recurrence residual the loop tests equals (b - A x_i)/|b|: x and r are updated with the same alpha) and C12_tolEff_true; under the input-level hypotheses MaskOffN (C12_residual_true_mask), one right-hand side with tol >= 1e-40 (C12_residual_true_single) or none beyond HPD (C12_residual_true_final, some k' <= k) it is moreover the textbook residual of the textbook iterate; the round-1 statement C12_residual_true (hypothesis GuardsOffN on computed quantities) is only kept as a corollary; the float check adds a slack of 200 * eps * kappa * n for the drift of the recurrence residual in IEEE arithmetic",
         "IEEE range: below |b| ~ 1e-154 the squares inside np.linalg.norm underflow and a non-zero column is treated as zero (returns 0); outside the exact-arithmetic model, recorded under observations",
-        "a zero column with x0 != 0 has no relative tolerance (|b| = 0): the code iterates on (0, x0) un-normalised and returns exactly 0; the stops-as-soon-as clause leaves such cases out",
+        "a zero column with x0 != 0 has no relative tolerance (|b| = 0): the code iterates on (0, x0) un-normalised and returns exactly 0 (C12_zero; the residual it tests is that of A x = 0 from x0, C12_residual_recurrence); the stops-as-soon-as clause leaves such cases out",
         "AdaNysPrecond (randomised Nystrom preconditioner) is not exercised; any Hermitian positive-definite P is covered by the theorems and dense SPD P by the stream",
         "quick: kappa <= 1e3, n <= 12; thorough: n <= 40 in the main stream plus 48 cases with n in {50, 100, 200}, kappa in {1e3..1e6} (float side: real vs float model with the measured-sensitivity rule on caps 0..K <= 24, one run to convergence judged model-free); the float Krylov-optimum oracle is applied at every step for kappa_eff <= 100 and at steps <= 5 above",
         "comparison with the exact Krylov-optimal iterate only on steps where the bound B_k is informative (<= 1e-4); B_k is an amplification model calibrated by measurement, not a theorem -- beyond it floating-point CG is not comparable with exact CG step by step",
